@@ -219,6 +219,43 @@ UTF8_MODES = ("textfile", "enc_utf8")
 SBCS_MODES = tuple("sbcs:%d" % i for i in range(len(c19_breaks.SBCS)))       # real text files in cp1252, koi8-r, ...
 TEXT_MODES = ("textfile", "enc_utf8", "latin1file", "enc_latin1") + SBCS_MODES
 _SBCS_TABLES = None
+ENC_ARGS = ["utf-8", "latin-1", "sbcs:0", "sbcs:%d" % c19_breaks.SBCS.index("ascii"), "none"]
+
+
+def own_codec(mode):
+    """the handle's own encoding (None: a binary handle)"""
+    if mode == "textfile":
+        return "utf-8"
+    if mode == "latin1file":
+        return "latin-1"
+    return mode if mode in SBCS_MODES else None
+
+
+def arg_codec(case):
+    """the encoding argument (None: not given, or given as None)"""
+    if case["mode"] == "enc_utf8":
+        return "utf-8"
+    if case["mode"] == "enc_latin1":
+        return "latin-1"
+    e = case.get("enc")
+    return None if e in (None, "none") else e
+
+
+def eff_codec(case):
+    """what the lines must be decoded with: the caller's encoding wins"""
+    return arg_codec(case) or own_codec(case["mode"])
+
+
+def py_codec(name):
+    return c19_breaks.SBCS[int(name.split(":")[1])] if name.startswith("sbcs:") else name
+
+
+def coq_codec(name):
+    if name is None:
+        return "None"
+    if name.startswith("sbcs:"):
+        return "(Some (sbcs %d%%nat))" % int(name.split(":")[1])
+    return {"utf-8": "(Some TextUtf8)", "latin-1": "(Some TextLatin1)"}[name]
 
 
 def sbcs_defined(mode, content):
@@ -231,7 +268,8 @@ def sbcs_defined(mode, content):
     return [b for b in content if row[b] is not None]
 
 
-def gen_content(rng, n, mode, lone_cr, invalid):
+def gen_content(rng, n, mode, lone_cr, invalid, utf8=None):
+    utf8 = (mode in UTF8_MODES) if utf8 is None else utf8
     out = []
     pb = rng.choice([0.1, 0.3, 0.6])
     crlf = rng.choice([0.0, 0.3, 0.7, 1.0])
@@ -247,7 +285,7 @@ def gen_content(rng, n, mode, lone_cr, invalid):
         elif x < pb + 0.25:
             out += rng.choice(CH_MULTI)
         elif x < pb + 0.33:
-            if mode in UTF8_MODES and not invalid:
+            if utf8 and not invalid:
                 out += rng.choice([[11], [12], [0x1c]])
             else:
                 out += rng.choice(CH_BIN_ODD)
@@ -272,12 +310,21 @@ def pick_blocksizes(rng, n):
 
 def gen_rev(rng, tier):
     mode = rng.choice(REV_MODES) if rng.random() < 0.85 else rng.choice(SBCS_MODES)
+    enc = None
+    if mode not in ("enc_utf8", "enc_latin1") and rng.random() < 0.3:
+        # an explicit encoding argument, whatever the handle (text handles in ANOTHER encoding included):
+        # the caller's encoding wins
+        enc = rng.choice(ENC_ARGS)
+    probe = {"mode": mode, "enc": enc}
+    eff = eff_codec(probe)
+    utf8 = eff == "utf-8"
+    binary_handle = own_codec(mode) is None
     r = rng.random()
     lone_cr = rng.random() < 0.10
-    invalid = mode in UTF8_MODES and rng.random() < 0.04
+    invalid = utf8 and rng.random() < 0.04
     if r < 0.95:
         n = rng.randint(0, 5) if r < 0.2 else rng.randint(0, 40)
-        content = gen_content(rng, n, mode, lone_cr, invalid)
+        content = gen_content(rng, n, mode, lone_cr, invalid, utf8)
         runs = [[content, 1]]
         bs = pick_blocksizes(rng, len(content))
     else:
@@ -285,17 +332,19 @@ def gen_rev(rng, tier):
         runs = []
         for _ in range(rng.randint(1, 6)):
             runs.append([rng.choice(CH_ASCII + CH_MULTI[:3]), rng.randint(1, 2500)])
-            runs.append([gen_content(rng, rng.randint(0, 8), mode, lone_cr, False), 1])
+            runs.append([gen_content(rng, rng.randint(0, 8), mode, lone_cr, False, utf8), 1])
         bs = [[4096, rng.choice(["pos", "kw", "default"])], [rng.choice([1000, 4095, 4097, 5000, 8192, 100000]), "kw"]]
     pos = None
-    if mode in ("bytesio", "binfile", "rawfile", "rwfile", "enc_utf8", "enc_latin1") and rng.random() < 0.15:
+    if binary_handle and rng.random() < 0.15:
         pos = rng.randint(0, len(expand(runs)))
-        if mode == "enc_utf8":
+        if utf8:
             c = expand(runs)
             while 0 < pos < len(c) and 0x80 <= c[pos] < 0xc0:     # keep the cursor on a character boundary
                 pos -= 1
     case = {"k": "rev", "runs": runs, "mode": mode, "pos": pos, "bs": bs}
-    if pos is None and mode not in ("textfile", "latin1file") + SBCS_MODES and rng.random() < 0.25:
+    if enc is not None:
+        case["enc"] = enc
+    if pos is None and binary_handle and rng.random() < 0.25:
         # default preseek=True must ignore where the cursor happens to be
         case["pre_cursor"] = rng.randint(0, len(expand(runs)))
     return case
@@ -303,7 +352,11 @@ def gen_rev(rng, tier):
 
 J_OK = [[48], [55], [49, 50], [51, 48, 48], [34, 97, 98, 34], [34, 34], [34, 0xc3, 0xa9, 0xe2, 0x82, 0xac, 34],
         [34, 120, 32, 121, 34], [34, 0xf0, 0x9d, 0x84, 0x9e, 34], [34, 35, 44, 58, 34], [57, 57, 57, 57, 57, 57, 57]]
-J_BAD = [[120], [49, 50, 120], [48, 49], [34, 97, 98], [49, 32, 50], [0xc3, 0xa9], [34, 97, 34, 98, 34], [35],
+# every JSON value kind as a whole record (null false true 0 "" [] {} and spaced containers)
+J_KINDS = [[110, 117, 108, 108], [102, 97, 108, 115, 101], [116, 114, 117, 101], [48], [34, 34], [91, 93], [123, 125],
+           [91, 32, 93], [123, 9, 32, 125]]
+J_BAD = [[110, 117, 108], [110, 117, 108, 108, 120], [116, 114, 117], [102, 97, 108, 115], [91], [123], [93], [125],
+         [91, 93, 93], [123, 125, 49], [110, 117, 108, 108, 32, 49], [110], [120], [49, 50, 120], [48, 49], [34, 97, 98], [49, 32, 50], [0xc3, 0xa9], [34, 97, 34, 98, 34], [35],
          [34, 97, 9, 98, 34], [49, 11], [34], [44], [49, 0xc2, 0xa0]]
 J_BAD_BIN = [[34, 0xc3, 34], [0x80], [49, 0xc0, 0xaf]]
 J_BLANK = [[], [], [32], [32, 32, 9], [9], [11], [12, 32]]
@@ -342,7 +395,7 @@ def gen_jsonl(rng, tier):
                 if mode == "latin1file" and tok in J_BAD_BIN:
                     tok = [0x80]                      # a C1 control character: "Expecting value"
             else:
-                tok = rng.choice(J_OK)
+                tok = rng.choice(J_KINDS) if rng.random() < 0.4 else rng.choice(J_OK)
             body = lead + tok + rng.choice(WS_TRAIL)
         last = i == nlines - 1
         if last and rng.random() < 0.4:
@@ -462,8 +515,8 @@ class _Files:
             self.tmp.cleanup()
 
 
-def _line(mode, l):
-    if mode in TEXT_MODES:
+def _line(text, l):
+    if text:
         if type(l) is not str:
             raise TypeError("text-mode line of type %s" % type(l))
         return [ord(c) for c in l]
@@ -473,10 +526,19 @@ def _line(mode, l):
 
 
 def _jobj(o):
+    """every JSON value kind can be a whole record; None is a value (JSON null), not "nothing"."""
+    if o is None:
+        return {"n": 0}
+    if type(o) is bool:
+        return {"b": o}
     if type(o) is int and o >= 0:
         return {"i": o}
     if type(o) is str:
         return {"s": [ord(c) for c in o]}
+    if type(o) is list and not o:
+        return {"l": 0}
+    if type(o) is dict and not o:
+        return {"d": 0}
     raise TypeError("object outside the check's JSON alphabet: %r" % (o,))
 
 
@@ -522,10 +584,10 @@ def run_impl(case):
             for bs, how in case["bs"]:
                 f = files.open()
                 kw = {}
-                if case["mode"] == "enc_utf8":
-                    kw["encoding"] = "utf-8"
-                elif case["mode"] == "enc_latin1":
-                    kw["encoding"] = "latin-1"
+                if arg_codec(case) is not None:
+                    kw["encoding"] = py_codec(arg_codec(case))
+                elif case.get("enc") == "none":
+                    kw["encoding"] = None
                 if case["pos"] is not None:
                     f.seek(case["pos"])
                     kw["preseek"] = False
@@ -541,7 +603,7 @@ def run_impl(case):
                     else:
                         it = reverse_iter_lines(f, bs, **kw)
                     lines = list(it)
-                    out.append({"lines": [_line(case["mode"], l) for l in lines]})
+                    out.append({"lines": [_line(eff_codec(case) is not None, l) for l in lines]})
                 except ValueError:          # UnicodeDecodeError on bytes that are not text
                     out.append({"raise": "ValueError"})
                 finally:
@@ -601,9 +663,20 @@ def _lres(o):
     return "(Ok %s)" % clines(o["lines"])
 
 
+def _jval(x):
+    if "n" in x:
+        return "JObsNull"
+    if "b" in x:
+        return "(JObsBool %s)" % cbool(x["b"])
+    if "i" in x:
+        return "(JObsInt %s)" % cN(x["i"])
+    if "s" in x:
+        return "(JObsStr %s)" % crtext(x["s"])
+    return "JObsList" if "l" in x else "JObsDict"
+
+
 def _jres(o):
-    objs = clist(("(JObsInt %s)" % cN(x["i"])) if "i" in x else ("(JObsStr %s)" % crtext(x["s"])) for x in o["objs"])
-    return "(Ok (%s, %s))" % (objs, cbool(o["err"]))
+    return "(Ok (%s, %s))" % (clist(_jval(x) for x in o["objs"]), cbool(o["err"]))
 
 
 def to_coq(case, obs):
@@ -622,7 +695,8 @@ def to_coq(case, obs):
     if k == "rev":
         runs = clist("(%s, %s)" % (cN(bs), _lres(o)) for (bs, _how), o in zip(case["bs"], obs))
         pos = "None" if case["pos"] is None else "(Some %s)" % cN(case["pos"])
-        return "CRev %s %s %s %s" % (crtext_runs(case["runs"]), _mode(case["mode"]), pos, runs)
+        return "CRev %s %s %s %s %s" % (crtext_runs(case["runs"]), coq_codec(own_codec(case["mode"])),
+                                        coq_codec(arg_codec(case)), pos, runs)
     return "CJsonl %s %s %s %s %s" % (crtext_runs(case["runs"]), _mode(case["mode"]), cbool(case["ie"]),
                                       _jres(obs["fwd"]), _jres(obs["rev"]))
 
@@ -726,6 +800,12 @@ def distribution(d, case, obs):
     if k == "rev":
         if case["pos"] is not None:
             inc("rev_preseek_false")
+        if arg_codec(case) and own_codec(case["mode"]) and arg_codec(case) != own_codec(case["mode"]):
+            inc("rev_encoding_argument_differs_from_text_handle")
+        elif arg_codec(case) and own_codec(case["mode"]) is None:
+            inc("rev_encoding_argument_on_binary_handle")
+        elif case.get("enc") == "none":
+            inc("rev_encoding_None_given")
         if case.get("pre_cursor") is not None:
             inc("rev_preseek_true_from_moved_cursor")
         if any("raise" in o for o in obs):
@@ -742,7 +822,7 @@ def distribution(d, case, obs):
 def sample(case, obs):
     c = expand(case["runs"])
     s = {"kind": case["k"], "content_head": c[:40], "len": len(c)}
-    for key in ("mode", "pos", "pre_cursor", "bs", "ie", "margin", "newline"):
+    for key in ("mode", "enc", "pos", "pre_cursor", "bs", "ie", "margin", "newline"):
         if key in case:
             s[key] = case[key]
     s["obs"] = obs if len(str(obs)) < 600 else str(obs)[:600]
